@@ -199,8 +199,18 @@ Section Stream.
 
   Definition max_chunk_server : N := 3000000.
 
-  (* one stream in one call of process_file_context; [finished] = parser_thread_finished *)
-  Definition tick_stream (all : list M) (finished : bool) (s : sctx) : res (sctx * list frame) :=
+  (* how many messages one call of process_file_context may send for one stream: the code sends everything
+     that is due ([None] = no bound).  The bound is explicit because the rule that ends a query relies on it:
+     "everything processed in this call was also sent in this call". *)
+  Definition cap (budget : option N) (from x : N) : N :=
+    match budget with None => x | Some k => N.min x (from + k) end.
+  Definition send_budget : option N := None.
+
+  (* one stream in one call of process_file_context; [finished] = parser_thread_finished;
+     [coll] = the loop that fetches the messages to send ([collect]; an equivalent single-pass version is used
+     for evaluating big sessions, see Remote/StreamFast.v) *)
+  Definition tick_stream_gen (coll : list M -> sctx -> N -> nat -> res (list (N * M))) (budget : option N)
+      (all : list M) (finished : bool) (s : sctx) : res (sctx * list frame) :=
     let all_len := len all in
     let off := N.min (s_last s) all_len in
     let s1 := process_stream_new_msgs s off (skipN off all) max_chunk_server in
@@ -208,8 +218,8 @@ Section Stream.
     let f_info := if s_last s1 =? off then [] else [FInfo (s_id s1) slen (s_last s1) all_len] in
     bind
       (if (s_sent_end s1 <? s_to_end s1) && (s_sent_end s1 <? slen) then
-         let new_end := N.min slen (s_to_end s1) in
-         bind (collect all s1 (s_sent_end s1) (N.to_nat (new_end - s_sent_end s1))) (fun ms =>
+         let new_end := cap budget (s_sent_end s1) (N.min slen (s_to_end s1)) in
+         bind (coll all s1 (s_sent_end s1) (N.to_nat (new_end - s_sent_end s1))) (fun ms =>
          Ok (set_sent_end s1 new_end,
              if s_binary s1 then [FMsgs (s_id s1) (map snd ms)]
              else map (fun pm => FText (s_id s1) (fst pm) (snd pm)) ms))
@@ -218,6 +228,9 @@ Section Stream.
          let '(s2, f_msgs) := r in
          let done := ((finished && (all_len <=? s_last s2)) || (s_to_end s2 <=? s_sent_end s2)) && negb (s_is_stream s2) in
          Ok (if done then set_done s2 else s2, f_info ++ f_msgs ++ (if done then [FDone (s_id s2)] else []))).
+
+  Definition tick_stream : list M -> bool -> sctx -> res (sctx * list frame) :=
+    tick_stream_gen collect send_budget.
 
   (* the condition before the repair b2216c6: a tick without new messages ended the query *)
   Definition query_done_prefix (got_new : bool) (all_len : N) (s2 : sctx) : bool :=
